@@ -65,7 +65,7 @@ def main(tier):
             gs = rng.choice(divs)
         style = rng.choice(["plain", "offset", "negative"])
         bits = rand_tensor(rng, dtype, shape, axis, style)
-        base = {"fn": "quantize_weight", "dtype": dtype, "shape": shape, "bits": bits, "qtype": qt, "axis": axis, "group_size": gs, "optimizer": None}
+        base = {"fn": "quantize_weight", "layout": rng.choice([None, None, None, "transposed", "strided", "offset"]), "dtype": dtype, "shape": shape, "bits": bits, "qtype": qt, "axis": axis, "group_size": gs, "optimizer": None}
         calls.append(base)
         meta.append(("base", i, None))
         if gs is None:
@@ -101,7 +101,7 @@ def main(tier):
         qt = ["qint8", "qfloat8_e4m3fn", "qfloat8_e5m2"][i % 3]
         shape, axis = rng.choice([([3, 5], None), ([3, 5], 0), ([3, 5], -1), ([2, 3, 4], None), ([2, 3, 4], 1), ([7], None)])
         bits = [N.encode_nearest(Fraction(rng.uniform(-1, 1) * 10.0 ** rng.uniform(-3, 2)), dtype) for _ in range(prod(shape))]
-        acalls.append({"fn": "absmax_scale", "dtype": dtype, "shape": shape, "bits": bits, "qtype": qt, "axis": axis})
+        acalls.append({"fn": "absmax_scale", "layout": rng.choice([None, None, None, "transposed", "strided", "offset"]), "dtype": dtype, "shape": shape, "bits": bits, "qtype": qt, "axis": axis})
     # histories: the same Parameter object quantized, updated in place, quantized again - must equal a fresh tensor of the same values
     hcalls = []
     for i in range(20 if tier == "quick" else 120):
@@ -124,6 +124,8 @@ def main(tier):
                 ck.violation(f"quantize_weight of a Parameter after an in-place update ({c['update']}) differs from quantizing a fresh tensor holding the same values: the scale depends on the history of the object, not on its values",
                              {"config": cfg, "bits": c["bits"], "observed": r})
             ck.case(("history", c["dtype"], c["qtype"], c["update"], tuple(c["bits"])), nontrivial=True)
+    for c_ in calls + acalls:
+        ck.count("layout", c_.get("layout") or "contiguous")
     res = ck.impl("numq", {"calls": calls + acalls}, timeout=2400)
     if isinstance(res, dict):
         ck.violation("implementation worker crashed: " + res.get("stderr", "")[-300:], {"stderr": res.get("stderr")})
